@@ -88,12 +88,12 @@ theorem step_stop_not_ok (env : Env) (nt : Ctx → Ctx × Outcome Tok) (c : Cfg)
         · exact hp _ _ h
         · simp at h
 
-theorem runLoop_sound (env : Env) (nt : Ctx → Ctx × Outcome Tok) (start aug sym : Nat)
-    (hs : Structural env.g env.t start aug sym) :
+theorem runLoop_sound (env : Env) (nt : Ctx → Ctx × Outcome Tok) (autos : List Auto) (hs : Structural env.g env.t autos)
+    (au : Auto) (hin : au ∈ autos) (start : Nat) (hstart : start = au.start) :
     ∀ (fuel : Nat) (c : Cfg) (ctx : Ctx) (r : ParseResult),
       FInv start c → CInv env.g env.t start c.abs →
       runLoop env nt fuel c = (ctx, .ok r) →
-      r.tree.Valid env.g sym ∧ r.tree.yield = (r.hist.map (·.kind)).reverse := by
+      r.tree.Valid env.g au.sym ∧ r.tree.yield = (r.hist.map (·.kind)).reverse := by
   intro fuel
   induction fuel with
   | zero => intro c ctx r _ _ h; simp [runLoop] at h
@@ -103,14 +103,14 @@ theorem runLoop_sound (env : Env) (nt : Ctx → Ctx × Outcome Tok) (start aug s
     split at h
     · rename_i c' hstep
       obtain ⟨hf', leafOf, nodeOf, hd, hcs⟩ := step_refines env nt start c c' hf hstep
-      have hc' := cstep_preserves env.g env.t start aug sym hs leafOf nodeOf hd c.abs c'.abs c.tok.kind hc hcs
+      have hc' := cstep_preserves env.g env.t autos hs au hin start hstart leafOf nodeOf hd c.abs c'.abs c.tok.kind hc hcs
       exact ih c' ctx r hf' hc' h
     · rename_i ctx' r' hstep
       injection h with _ h2
       injection h2 with h2
       subst h2
       obtain ⟨hacc, hhist⟩ := step_done_refines env nt start c ctx' r' hf hstep
-      obtain ⟨hv, hy, _⟩ := cstep_accept_sound env.g env.t start aug sym hs Tree.tok Tree.mk c.abs c.tok.kind r'.tree hc hacc
+      obtain ⟨hv, hy, _⟩ := cstep_accept_sound env.g env.t autos hs au hin start hstart Tree.tok Tree.mk c.abs c.tok.kind r'.tree hc hacc
       refine ⟨hv, ?_⟩
       rw [hy, hhist]
       rfl
@@ -123,15 +123,15 @@ end Rustemo
 
 namespace Rustemo
 
-theorem parseWith_sound (env : Env) (nt : Ctx → Ctx × Outcome Tok) (start aug sym : Nat)
-    (hs : Structural env.g env.t start aug sym) (ctx0 : Ctx) (fuel : Nat) (ctx : Ctx) (r : ParseResult)
+theorem parseWith_sound (env : Env) (nt : Ctx → Ctx × Outcome Tok) (autos : List Auto) (hs : Structural env.g env.t autos)
+    (au : Auto) (hin : au ∈ autos) (start : Nat) (hstart : start = au.start) (ctx0 : Ctx) (fuel : Nat) (ctx : Ctx) (r : ParseResult)
     (h : parseWith env nt start ctx0 fuel = (ctx, .ok r)) :
-    r.tree.Valid env.g sym ∧ r.tree.yield = (r.hist.map (·.kind)).reverse := by
+    r.tree.Valid env.g au.sym ∧ r.tree.yield = (r.hist.map (·.kind)).reverse := by
   unfold parseWith at h
   simp only at h
   split at h
   · rename_i ctx1 tk hnt
-    refine runLoop_sound env nt start aug sym hs fuel _ ctx r ⟨by simp, by simp⟩ ?_ h
+    refine runLoop_sound env nt autos hs au hin start hstart fuel _ ctx r ⟨by simp, by simp⟩ ?_ h
     exact ⟨by simp [Cfg.abs, absStack, PathInv], by simp [Cfg.abs, absStack, yields]⟩
   all_goals (injection h with _ h2; simp at h2)
 
